@@ -8,6 +8,7 @@ from typing import TYPE_CHECKING, Any, Awaitable, Callable, NoReturn
 from repid._asyncify import asyncify
 from repid._utils import _NoAction
 from repid.dependencies.protocols import DependencyKind
+from repid.logger import logger
 from repid.message import Message
 
 if TYPE_CHECKING:
@@ -129,7 +130,16 @@ class MessageDependency(Message):
 
     async def __execute_callbacks(self) -> None:
         self.__lazy_result_callback()
-        [await c() for c in self._callbacks]  # execute in order
+        for callback in self._callbacks:  # execute in order
+            try:
+                await callback()
+            except Exception:
+                # the message is already disposed: a failing callback (e.g. the result store)
+                # must not be reported as a failure of the actor
+                logger.exception(
+                    "Callback raised an exception on message {message_id}.",
+                    extra={"message_id": self._key.id_},
+                )
 
     async def ack(self) -> NoReturn:
         await super().ack()
